@@ -1704,6 +1704,57 @@ func concatParts(v ssa.Value) []ssa.Value {
 			return append(concatParts(x.X), concatParts(x.Y)...)
 		}
 	case *ssa.Call:
+		if calleeName(&x.Call) == "strings.Join" && len(x.Call.Args) == 2 {
+			// strings.Join([]string{a, b, c}, sep): a slice literal is an array filled by constant index
+			if sl, ok := x.Call.Args[0].(*ssa.Slice); ok && sl.Low == nil && sl.High == nil {
+				if al, ok := sl.X.(*ssa.Alloc); ok && al.Referrers() != nil {
+					if pt, ok := al.Type().Underlying().(*types.Pointer); ok {
+						if arr, ok := pt.Elem().Underlying().(*types.Array); ok && arr.Len() > 0 && arr.Len() <= 16 {
+							elems := make([]ssa.Value, arr.Len())
+							plain := true
+							for _, r := range *al.Referrers() {
+								switch ia := r.(type) {
+								case *ssa.IndexAddr:
+									i, isC := constInt(ia.Index)
+									if !isC || i < 0 || i >= arr.Len() || ia.Referrers() == nil {
+										plain = false
+										continue
+									}
+									for _, r2 := range *ia.Referrers() {
+										if st, ok := r2.(*ssa.Store); ok && st.Addr == ssa.Value(ia) && elems[i] == nil && dominates(st, x) {
+											elems[i] = st.Val
+										} else {
+											plain = false
+										}
+									}
+								case *ssa.Slice:
+									if r != ssa.Instruction(sl) {
+										plain = false
+									}
+								default:
+									plain = false
+								}
+							}
+							for _, e := range elems {
+								if e == nil {
+									plain = false
+								}
+							}
+							if _, sepConst := constString(x.Call.Args[1]); plain && sepConst {
+								var out []ssa.Value
+								for i, e := range elems {
+									if s, _ := constString(x.Call.Args[1]); i > 0 && s != "" {
+										out = append(out, x.Call.Args[1])
+									}
+									out = append(out, concatParts(e)...)
+								}
+								return out
+							}
+						}
+					}
+				}
+			}
+		}
 		if calleeName(&x.Call) == "(*strings.Builder).String" && len(x.Call.Args) == 1 {
 			if al, ok := x.Call.Args[0].(*ssa.Alloc); ok && al.Referrers() != nil {
 				type w struct {
